@@ -46,6 +46,8 @@ func runC03(c *report.Ctx) {
 	checkRegistrationCloses(c)
 	c.Clause("6-7 parking and gate bookkeeping")
 	checkInitGateArrivals(c)
+	c.Clause("8 the barrier primitive (shared with C11)")
+	checkGatePrimitive(c)
 	checkTracerWrappers(c)
 }
 
